@@ -609,3 +609,33 @@ fire('c20-fields-from-annotations', 'C20', 'C20.ONE-BLOCK',
      (DIAG, 'diagram_task_type', 'for field in fields(task_type)\n            if field', 'for field in fields(task_type)\n            if field.name in task_type.__annotations__'))
 silent('c20-extend-instead-of-iadd', 'C20',
        (DIAG, 'TaskStructure.build', 'found_tasks += sub_tasks', 'found_tasks.extend(sub_tasks)'))
+
+# ------------------------------------------------------------------------------- support / config flow
+fire('cfg-bust-cache-not-passed', ['C08', 'C03'], 'SUPPORT.CONFIG-FLOW',
+     (LAB, 'Lab.run_tasks', 'bust_cache=bust_cache,', 'bust_cache=False,'))
+fire('cfg-storage-context-swapped', ['C16', 'C06'], ['SUPPORT.ARG-NAME-AGREE', 'SUPPORT.CONFIG-FLOW'],
+     (LAB, 'TaskCoordinator.run', 'context=self.lab.context,', 'context=self.lab._storage,'))
+fire('cfg-max-parallel-from-mlflow', ['C04', 'C15'], ['SUPPORT.ARG-NAME-AGREE', 'SUPPORT.CONFIG-FLOW'],
+     (TASKS, 'task', 'max_parallel=max_parallel,', 'max_parallel=mlflow_run,'))
+fire('cfg-continue-on-failure-not-stored', 'C10', 'SUPPORT.CONFIG-FLOW',
+     (LAB, 'Lab.__init__', 'self.continue_on_failure = continue_on_failure', 'self.continue_on_failure = True'))
+fire('cfg-class-level-queue', ['C03', 'C11'], 'SUPPORT.STATE-PER-INSTANCE',
+     (PROC, None, 'class ProcessExecutor:\n', 'class ProcessExecutor:\n    _pending_future_to_thunk: dict = {}\n'))
+fire('cfg-orderedset-remove-ignores-missing', ['C03', 'C04'], 'SUPPORT.ORDEREDSET',
+     (UTILS, 'OrderedSet.remove', 'del self.values[item]', 'self.values.pop(next(iter(self.values)), None)'))
+fire('cfg-future-done-excludes-cancelled', ['C11', 'C14'], 'SUPPORT.FUTURE-CLASS',
+     (PROC, 'Future.done', 'return self._state in {FutureState.FINISHED, FutureState.CANCELLED}', 'return self._state == FutureState.FINISHED'))
+fire('cfg-is-task-any-class-instance', ['C15', 'C02'], 'SUPPORT.IS-TASK',
+     (None if False else 'labtech/types.py', 'is_task', "return is_task_type(type(obj)) and hasattr(obj, '_is_task')", "return hasattr(obj, '_is_task')"))
+fire('cfg-proxy-filter-search', 'C19', 'SUPPORT.PROXY-FILTER',
+     (UTILS, 'LoggerFileProxy.write', 'self.whitespace_only_re.fullmatch(buf)', 'self.whitespace_only_re.match(buf)'))
+fire('cfg-wait-blocks-forever', 'C11', 'C11.WAIT-TIMEOUT',
+     (LAB, 'TaskCoordinator.run', 'runner.wait(timeout_seconds=0.5)', 'runner.wait(timeout_seconds=None)'))
+fire('cfg-root-not-resolved', ['C18', 'C08'], 'C18.ROOT-RESOLVED',
+     (STOR, 'LocalStorage.__init__', 'self._storage_path = storage_dir.resolve()', 'self._storage_path = storage_dir'))
+fire('cfg-cache-memo', ['C06', 'C08'], 'C06.CACHE-STATELESS',
+     (CACHE, 'BaseCache.load_metadata', '        return metadata\n', '        self._last_metadata = metadata\n        return metadata\n'))
+fire('cfg-metadata-built-after-visible', 'C13', 'C13.PREPARE-BEFORE-VISIBLE',
+     (CACHE, 'BaseCache.save', "                json.dump(metadata, metadata_file, indent=2)", "                json.dump({**metadata, 'task': self.serializer.serialize_task(task)}, metadata_file, indent=2)"))
+fire('cfg-result-put-under-other-id', ['C01', 'C10'], 'SUPPORT.QUEUE-ROUTING',
+     (PROC, '_subprocess_target', 'result_queue.put((future_id, result))', 'result_queue.put((0, result))'))
